@@ -39,6 +39,11 @@ PROPS["C09"] = {
             },
         },
         {
+            # the coefficients of the random linear combination themselves (range, distinctness, no stuck bits, dependence on the entropy)
+            "pkg": "internal/scalar128", "configs": ["default", "purego"],
+            "tests": {"TestC09Randomizers": T(600, 20000)},
+        },
+        {
             "pkg": "primitives/ed25519/extra/cache", "configs": ALL4,
             "tests": {
                 "TestC09Cache": T(1600, 40000, shards={"quick": 4, "thorough": 16}),
